@@ -537,7 +537,8 @@ def pop_scope(f, pop):
 
 def f7(prog, env, W, R, prefix, tag):
     # (a) sequential dispatch per connection
-    runner = prog.fn("network::receiver::Receiver::<Handler>::spawn_runner")
+    from ..common import receiver_fns
+    runner = receiver_fns(prog)[1]
     if R.judge(runner is not None, prefix + ".F7", "anchor spawn_runner" + tag, "", "", "anchor-missing", reason="anchor-missing"):
         dsp = [n for n in runner.nodes() if n["k"] == "mcall" and n.get("fn") == DISPATCH]
         R.floor(prefix + ".F7", len(dsp), 1, "dispatch call" + tag)
